@@ -31,20 +31,30 @@ type counter struct {
 	cancel  context.CancelFunc
 	onPoll  func(th *lua.LState, i int) // before the firing decision of poll i
 	onFire  func(th *lua.LState)
-	pcCache map[uintptr]bool
+	pcCache map[uintptr]int
+	kind    int // kind of the poll being handled (see pollKind)
 }
 
-func (c *counter) isDispatch() bool {
+// pollKind classifies the caller of Done(): 1 = the poll before an instruction
+// (lua.mainLoopWithContext), 2 = the poll after a Go function that ended a dispatch loop
+// (lua.pollContextAfterGFunction), 0 = anything else (NewThread, channel operations).
+func (c *counter) pollKind() int {
 	var pcs [1]uintptr
-	// 0 = Callers, 1 = isDispatch, 2 = Done, 3 = the caller of Done
+	// 0 = Callers, 1 = pollKind, 2 = Done, 3 = the caller of Done
 	if runtime.Callers(3, pcs[:]) == 0 {
-		return false
+		return 0
 	}
 	if v, ok := c.pcCache[pcs[0]]; ok {
 		return v
 	}
 	fr, _ := runtime.CallersFrames(pcs[:]).Next()
-	v := strings.HasSuffix(fr.Function, ".mainLoopWithContext")
+	v := 0
+	switch {
+	case strings.HasSuffix(fr.Function, ".pollContextAfterGFunction"):
+		v = 2
+	case strings.HasSuffix(fr.Function, ".mainLoopWithContext"):
+		v = 1
+	}
 	c.pcCache[pcs[0]] = v
 	return v
 }
@@ -69,7 +79,8 @@ func (x *cctx) Err() error {
 //go:noinline
 func (x *cctx) Done() <-chan struct{} {
 	c := x.c
-	if c.isDispatch() {
+	if k := c.pollKind(); k != 0 {
+		c.kind = k
 		c.n++
 		if c.fired {
 			c.after++
@@ -179,7 +190,7 @@ func newEnvS(withCtx bool, k int, customReason string, removeCtx bool, mode, set
 	}))
 	if withCtx {
 		in, cancel := context.WithCancel(context.Background())
-		e.c = &counter{k: k, cancel: cancel, pcCache: map[uintptr]bool{}}
+		e.c = &counter{k: k, cancel: cancel, pcCache: map[uintptr]int{}}
 		e.root = &cctx{inner: in, c: e.c, th: L}
 		if customReason != "" {
 			e.root.reason = reasonErr(customReason)
@@ -297,25 +308,53 @@ func polls(th *lua.LState) bool { return th.Context() != nil && lua.VerifCtxPoll
 //	C<w><p>  coroutine boundary (resume or wrap function in the parent), w wrapped, p child has a context
 func (e *env) snapshot(th *lua.LState) []string {
 	var out []string
+	if e.c != nil && e.c.kind == 2 {
+		// the poll being handled is the one after a Go function: that function's frame is gone,
+		// what is left of it is the entry that polls
+		out = append(out, "E")
+	}
 	var child *lua.LState
 	for cur := th; cur != nil; cur = cur.Parent {
 		frames := lua.VerifCtxFrames(cur)
 		flag := polls(cur)
+		mark := "e"
+		if flag {
+			mark = "E"
+		}
+		// enteredFromGo: frame i was entered through callR (from Go code: host call, library
+		// callback, metamethod, iterator), i.e. it is the base frame of a dispatch loop; a coroutine's
+		// bottom frame ends the coroutine instead (no poll after it)
+		enteredFromGo := func(i int) bool {
+			if i == 0 {
+				return cur.Parent == nil
+			}
+			b := frames[i-1]
+			if b.Fn == nil || b.Fn.IsG {
+				return true
+			}
+			return b.Pending != lua.OP_CALL && b.Pending != lua.OP_TAILCALL
+		}
 		for i := len(frames) - 1; i >= 0; i-- {
 			f := frames[i]
+			isG := f.Fn == nil || f.Fn.IsG
 			switch {
-			case f.Fn == nil:
-				out = append(out, "G")
-			case !f.Fn.IsG && f.Pending == lua.OP_TAILCALL && i+1 < len(frames) && frames[i+1].Fn != nil && frames[i+1].Fn.IsG:
+			case !isG && f.Pending == lua.OP_TAILCALL && i+1 < len(frames) && frames[i+1].Fn != nil && frames[i+1].Fn.IsG:
 				// pending in a tail call of a Go function: the frame is removed when that function
-				// returns (or is unwound) and never runs another instruction -- it is already gone
-				// as far as the machine is concerned
-			case !f.Fn.IsG:
+				// returns and never runs another instruction; if it was the base frame of its
+				// dispatch loop the loop polls once more before it ends
+				if enteredFromGo(i) {
+					out = append(out, mark)
+				}
+				continue
+			case !isG:
 				if flag {
 					out = append(out, "L")
 				} else {
 					out = append(out, "l")
 				}
+				continue
+			case f.Fn == nil:
+				out = append(out, "G")
 			case child != nil && i == len(frames)-1:
 				out = append(out, "C"+tf(lua.VerifCtxWrapped(child))+tf(polls(child)))
 			case f.Fn == e.pcallFn:
@@ -335,6 +374,10 @@ func (e *env) snapshot(th *lua.LState) []string {
 				out = append(out, "X"+h+tf(running))
 			default:
 				out = append(out, "G")
+			}
+			// a Go function entered from Go code: the loop that ran it polls when it returns
+			if enteredFromGo(i) {
+				out = append(out, mark)
 			}
 		}
 		child = cur
@@ -385,6 +428,13 @@ func (e *env) runScript(src, mode string) (err error, exited bool) {
 				err = lerr
 			} else {
 				err = e.L.CallByParam(lua.P{Fn: fn, NRet: lua.MultRet, Protect: true})
+			}
+		case "hostpcall":
+			fn, lerr := e.L.LoadString(src)
+			if lerr != nil {
+				err = lerr
+			} else {
+				err = e.L.CallByParam(lua.P{Fn: e.pcallFn, NRet: lua.MultRet, Protect: true}, fn)
 			}
 		case "resume", "thread":
 			fn, lerr := e.L.LoadString(src)
